@@ -2129,11 +2129,12 @@ def _verify_attribute_values(ir):
     return errors
 
 
-def _propagate_defaults_and_verify_attributes(ir):
+def _propagate_defaults_and_verify_attributes(ir, config=Config()):
     """Verify attributes and ensure defaults are set when not overridden.
 
     Arguments:
         ir: The IR to process.
+        config: The code generation configuration to use.
 
     Returns:
         A list of errors if there are errors present, or an empty list if
@@ -2161,7 +2162,9 @@ def _propagate_defaults_and_verify_attributes(ir):
         add_fn=_add_missing_enum_case_attribute_on_enum_value,
     )
 
-    return _verify_generated_names_are_distinct(ir)
+    return _verify_generated_names_are_distinct(
+        ir
+    ) + _verify_generated_identifiers_are_distinct(ir, config)
 
 
 def _check_generated_name(kind, cpp_name, name, seen, source_file_name, errors):
@@ -2258,6 +2261,134 @@ def _verify_generated_names_are_distinct(ir):
     return errors
 
 
+# Names of the members that every generated view class has, beyond the ones
+# generated for its fields and parameters (`Storage` is its template parameter).
+_VIEW_CLASS_MEMBERS = (
+    "Ok BackingStorage IsComplete SizeIsKnown Equals UncheckedEquals CopyFrom "
+    "UncheckedCopyFrom TryToCopyFrom IsAggregate backing_ Storage"
+).split()
+_VIEW_CLASS_TEXT_MEMBERS = ["UpdateFromTextStream", "WriteToTextStream"]
+_ENUM_HELPERS = "EnumTraits TryToGetEnumFromName TryToGetNameFromEnum EnumIsKnown"
+
+
+def _generated_identifiers(type_ir, namespace, config):
+    """Yields (scope, identifier, overload set, definition) for type_ir.
+
+    Every identifier that the generated code declares for type_ir is listed,
+    with the C++ scope it is declared in (a tuple of names), except for the
+    `EmbossReserved...` ones, which no Emboss name can collide with.  Two
+    declarations of one identifier in one scope can coexist only if they are in
+    the same (not None) overload set.  `definition` is the NameDefinition of the
+    Emboss entity that the identifier is generated for.
+    """
+    path = namespace + tuple(type_ir.name.canonical_name.object_path)
+    outer, name = path[:-1], path[-1]
+    if type_ir.has_field("enumeration"):
+        yield outer, name, None, type_ir.name
+        if config.include_enum_traits:
+            for helper in _ENUM_HELPERS.split():
+                yield outer, helper, "enum helpers", type_ir.name
+    elif type_ir.has_field("external"):
+        yield outer, name + "View", None, type_ir.name
+    if not type_ir.has_field("structure"):
+        return
+    for pattern in "Generic{}View {}View {}Writer Make{}View MakeAligned{}View".split():
+        yield outer, pattern.format(name), None, type_ir.name
+    yield outer, name, "namespace", type_ir.name
+    # Inside the view class, and in the nested view classes of virtual fields,
+    # constants and validators are referred to as `name::...`, which finds the
+    # type names of those classes (`types`, `nested_types`) before the namespace.
+    view = path + ("view",)
+    types, nested_types = view + ("types",), view + ("nested view types",)
+    members = _VIEW_CLASS_MEMBERS + ["Generic{}View".format(name)]
+    members.append("SizeIn" + {1: "Bits", 8: "Bytes"}[type_ir.addressable_unit])
+    if config.include_enum_traits:
+        members += _VIEW_CLASS_TEXT_MEMBERS
+    if type_ir.runtime_parameter:
+        members.append("parameters_initialized_")
+    for scope, names in (
+        (view, members),
+        (types, ["Storage", name]),
+        (nested_types, ["ValueType", name]),
+    ):
+        for member in names:
+            yield scope, member, None, type_ir.name
+    for subtype in type_ir.subtype:
+        if subtype.has_field("enumeration"):
+            yield view, subtype.name.name.text, None, subtype.name
+            yield types, subtype.name.name.text, None, subtype.name
+    for parameter in type_ir.runtime_parameter:
+        for pattern in ("{}", "has_{}", "{}_"):
+            yield view, pattern.format(parameter.name.name.text), None, parameter.name
+    for field in type_ir.structure.field:
+        cpp_name = _cpp_field_name(field.name.name.text)
+        yield view, cpp_name, None, field.name
+        yield view, "has_" + cpp_name, None, field.name
+        if (
+            ir_util.field_is_virtual(field)
+            and field.write_method.which_method != "alias"
+            and ir_util.is_constant_type(field.read_transform.type)
+            and ir_util.is_constant_type(field.existence_condition.type)
+        ):
+            # Constants are also functions in the structure's namespace.
+            yield path, cpp_name, None, field.name
+
+
+def _verify_generated_identifiers_are_distinct(ir, config):
+    """Checks that no two generated declarations of one C++ scope collide.
+
+    Emboss names are used as or turned into C++ identifiers (`field` into
+    `field()` and `has_field()`, `Type` into `TypeView`, `MakeTypeView`, ...),
+    next to the fixed members of every view class, so some combinations of
+    valid Emboss names (fields `x` and `has_x`, a field `backing_`, types `Foo`
+    and `FooView`, a nested enum `Ok`) would yield a header that does not
+    compile; report them as errors instead.
+    """
+    errors = []
+    seen = {}
+
+    def check(types, module):
+        file_name = module.source_file_name
+        for type_ir in types:
+            for scope, identifier, overloads, definition in _generated_identifiers(
+                type_ir, tuple(_get_module_namespace(module)), config
+            ):
+                if (scope, identifier) not in seen:
+                    seen[scope, identifier] = (overloads, definition, file_name)
+                    continue
+                first_overloads, first, first_file_name = seen[scope, identifier]
+                if overloads is not None and overloads == first_overloads:
+                    continue
+                errors.append(
+                    [
+                        error.error(
+                            file_name,
+                            definition.source_location,
+                            "The name '{}' generated for '{}' is already generated "
+                            "for {} in the same scope of the C++ code.".format(
+                                identifier,
+                                definition.name.text,
+                                "something else"
+                                if first is definition
+                                else "'{}'".format(first.name.text),
+                            ),
+                        ),
+                        error.note(
+                            first_file_name,
+                            first.source_location,
+                            "'{}' defined here.".format(first.name.text),
+                        ),
+                    ]
+                )
+                break  # One error per type: what it contains would collide, too.
+            else:
+                check(type_ir.subtype, module)
+
+    for module in ir.module:
+        check(module.type, module)
+    return errors
+
+
 def generate_header(ir, config=Config()):
     """Generates a C++ header from an Emboss module.
 
@@ -2270,7 +2401,7 @@ def generate_header(ir, config=Config()):
       module, or None, and `errors` is a possibly-empty list of error messages to
       display to the user.
     """
-    errors = _propagate_defaults_and_verify_attributes(ir)
+    errors = _propagate_defaults_and_verify_attributes(ir, config)
     if errors:
         return None, errors
     type_declarations = []
